@@ -27,25 +27,7 @@ pub open spec fn needed_la(t: TokenType) -> int {
 pub open spec fn ends_increase(ts: Seq<Token>) -> bool {
     forall|i: int, j: int| 0 <= i < j < ts.len() ==> ts[i].range.end < ts[j].range.end
 }
-pub open spec fn wf_change(tc: &TokenChange) -> bool {
-    tc.deletion_range.start <= tc.deletion_range.end && tc.deletion_range.end + tc.insertion_len <= usize::MAX
-}
-/// old token index i is not deleted by the window
-pub open spec fn survives(tc: &TokenChange, i: int) -> bool {
-    i < tc.deletion_range.start || i >= tc.deletion_range.end
-}
-/// where a surviving old token sits in the new sequence
-pub open spec fn new_pos(tc: &TokenChange, i: int) -> int {
-    if i >= tc.deletion_range.end { i + tc.insertion_len - (tc.deletion_range.end - tc.deletion_range.start) } else { i }
-}
-/// The sentence of C07 as a predicate: tokens before the window are the old ones untouched, tokens after it are the old ones
-/// (already shifted: `old` is the sequence of shifted old tokens).  Generic in the element type.
-pub open spec fn truthful<T>(old: Seq<T>, new: Seq<T>, tc: &TokenChange) -> bool {
-    &&& tc.deletion_range.end <= old.len()
-    &&& new.len() == old.len() - (tc.deletion_range.end - tc.deletion_range.start) + tc.insertion_len
-    &&& forall|i: int| 0 <= i < tc.deletion_range.start ==> new[i] == old[i]
-    &&& forall|i: int| tc.deletion_range.end <= i < old.len() ==> new[new_pos(tc, i)] == old[i]
-}
+//@include inc_window.rs
 
 // ---------- code under contract
 
@@ -73,57 +55,12 @@ pub open spec fn truthful<T>(old: Seq<T>, new: Seq<T>, tc: &TokenChange) -> bool
             tc.deletion_range == deletion_range && tc.insertion_len == insertion_len, //# TokenChange::new::fields
 //@end
 
-//@extract spl_frontend/src/tokens.rs :: impl TokenChange :: fn deletes
-//@ ret b
-//@ sig
-        ensures
-            b ==> forall|i: int| other_range.start <= i < other_range.end ==> !survives(self, i), //# deletes::nothing_survives
-//@end
 
-//@extract spl_frontend/src/tokens.rs :: impl TokenChange :: fn overlaps
-//@ ret b
-//@ rewrite range_is_empty range_contains usize_max usize_min
-//@ sig
-        requires wf_change(self),
-        ensures
-            !b ==> forall|i: int| other_range.start <= i < other_range.end ==> survives(self, i), //# overlaps::untouched_tokens_survive
-            !b && self.deletion_range.start == self.deletion_range.end ==> !(other_range.start < self.deletion_range.start < other_range.end), //# overlaps::no_insertion_inside
-//@end
 
-//@extract spl_frontend/src/tokens.rs :: impl TokenChange :: fn out_of_range
-//@ ret b
-//@ rewrite range_len
-//@ sig
-        requires wf_change(self),
-        ensures
-            b == (position >= self.deletion_range.start + self.insertion_len), //# out_of_range::first_unchanged_token
-//@end
 
-//@extract spl_frontend/src/tokens.rs :: impl TokenChange :: fn new_token_pos
-//@ ret p
-//@ rewrite range_len
-//@ sig
-        requires wf_change(self), old_token_pos + self.insertion_len <= usize::MAX,
-        ensures
-            p == new_pos(self, old_token_pos as int), //# new_token_pos::image_of_survivor
-//@end
 
-//@extract spl_frontend/src/parser/utility.rs :: fn affected :: fn is_partially_consumed
-//@ ret b
-//@ sig
-        requires wf_change(token_change), parser_start + token_change.insertion_len <= usize::MAX,
-        ensures
-            !b ==> (location_offset < token_change.deletion_range.start + token_change.insertion_len || location_offset <= new_pos(token_change, parser_start as int)), //# is_partially_consumed::start_not_behind_cursor
-//@end
 
-//@extract spl_frontend/src/parser/utility.rs :: fn affected :: fn is_insertion_here
-//@ ret b
-//@ rewrite range_contains
-//@ sig
-        requires wf_change(token_change),
-        ensures
-            b == (token_change.deletion_range.start <= location_offset < token_change.deletion_range.start + token_change.insertion_len), //# is_insertion_here::inside_inserted_tokens
-//@end
+
 
 // ---------- lemmas over the contracts (statement of C07, consumer side used by the parser: auxiliary for C01)
 
@@ -133,40 +70,6 @@ pub proof fn head_is_prefix(ts: Seq<Token>, index: int, i: int, j: int)
     requires ends_increase(ts), 0 <= i < j < ts.len(), ts[j].range.end <= index,
     ensures ts[i].range.end + 1 <= index, //# head_is_prefix
 { }
-
-/// survivors keep their relative order
-pub proof fn survivors_ordered(tc: &TokenChange, i: int, j: int)
-    requires wf_change(tc), 0 <= i < j, survives(tc, i), survives(tc, j),
-    ensures new_pos(tc, i) < new_pos(tc, j), //# survivors_ordered
-{ }
-
-/// an inserted position is the image of no survivor
-pub proof fn insertion_is_not_image(tc: &TokenChange, l: int, i: int)
-    requires wf_change(tc), 0 <= i, survives(tc, i),
-        tc.deletion_range.start <= l < tc.deletion_range.start + tc.insertion_len,
-    ensures new_pos(tc, i) != l, //# insertion_is_not_image
-{ }
-
-/// reuse of an aligned node under a truthful window: its tokens and one look-ahead token are unchanged
-pub proof fn reuse_aligned<T>(old: Seq<T>, new: Seq<T>, tc: &TokenChange, a: int, b: int, l: int, k: int)
-    requires wf_change(tc), truthful(old, new, tc), 0 <= a <= b, b < old.len(),
-        forall|i: int| a <= i < b + 1 ==> survives(tc, i),
-        tc.deletion_range.start == tc.deletion_range.end ==> !(a < tc.deletion_range.start < b + 1),
-        l == new_pos(tc, a), 0 <= k <= b - a,
-    ensures new[l + k] == old[a + k], //# reuse_aligned
-{
-    assert(survives(tc, a));
-    assert(survives(tc, a + k));
-    if a + k < tc.deletion_range.start {
-    } else {
-        assert(a + k >= tc.deletion_range.end);
-        if a < tc.deletion_range.start {
-            if tc.deletion_range.start < tc.deletion_range.end {
-                assert(!survives(tc, tc.deletion_range.start as int));
-            }
-        }
-    }
-}
 
 // ---------- producer side: what `lexer::update` does after re-lexing (lifted, R6)
 pub open spec fn starts_increase(ts: Seq<Token>) -> bool {
